@@ -385,7 +385,7 @@ func main() {
 		nan := float32(math.NaN())
 		cfgs = append(cfgs,
 			config{Base: 1, MaxSize: 10, Reserved: nan, Threshold: 0, Factor: 0},
-			config{Base: 2, MaxSize: 1, Reserved: nan, Threshold: 3, Factor: 2},
+			config{Base: 5, MaxSize: 1, Reserved: nan, Threshold: 3, Factor: 2},
 			config{Base: 2, MaxSize: 10, Reserved: 0, Threshold: 0, Factor: nan},
 			config{Base: 2, MaxSize: 10, Reserved: 0, Threshold: 0, Factor: float32(math.Inf(1))},
 			config{Base: 2, MaxSize: 10, Reserved: 0, Threshold: 0, Factor: 3e9},
